@@ -17,6 +17,9 @@ func init() {
 		fs.Parse(args)
 		col := run.NewCollector("conc")
 		w, err := replay.NewConcWorld()
+		if w != nil {
+			defer w.Close()
+		}
 		if err != nil {
 			fmt.Fprintln(os.Stderr, "conc:", err)
 			return 2
